@@ -240,6 +240,120 @@ struct P_C18
     }
 };
 
+// ---------------------------------------------------------------------------------------------------
+// C18t: a hand-written settings parser with a custom lexer whose custom terms have functors that return something other than the
+// slice itself (a string_view without the quotes, an int, the slice unchanged, no_type): "passes that slice through the custom term's functor".
+namespace st
+{
+using namespace ctpg; using namespace ctpg::ftors;
+struct lexer
+{
+    template<typename Iterator, typename ErrorStream>
+    constexpr recognized_term match(match_options, source_point, Iterator start, Iterator end, ErrorStream&)
+    {
+        if (start == end) return recognized_term{};
+        char c = *start; size_t n = 1; Iterator it = start; ++it;
+        auto is_id = [](char x) { return (x >= 'a' && x <= 'z') || x == '_'; };
+        if (c == '"') { while (!(it == end) && *it != '"') { ++it; ++n; } if (it == end) return recognized_term{}; return recognized_term(0, n + 1); }
+        if (c >= '0' && c <= '9') { while (!(it == end) && *it >= '0' && *it <= '9') { ++it; ++n; } return recognized_term(1, n); }
+        if (is_id(c)) { while (!(it == end) && is_id(*it)) { ++it; ++n; } return recognized_term(2, n); }
+        if (c == '=') return recognized_term(3, 1);
+        if (c == ';') return recognized_term(4, 1);
+        return recognized_term{};
+    }
+};
+constexpr custom_term t_str("str", [](std::string_view sv) { return sv.substr(1, sv.size() - 2); });     // a string_view that is NOT the slice
+constexpr custom_term t_num("num", [](std::string_view sv) { int v = 0; for (char ch : sv) v = (v * 10 + (ch - '0')) % 1000003; return v; });
+constexpr custom_term t_id("id", [](std::string_view sv) { return sv; });
+constexpr custom_term t_eq("=", create<no_type>{});
+constexpr custom_term t_semi(";", create<no_type>{});
+constexpr nterm<std::string> list("list"), item("item");
+inline const auto& settings_parser()
+{
+    static const auto* p = new parser(
+        list, terms(t_str, t_num, t_id, t_eq, t_semi), nterms(list, item),
+        rules(
+            list() >= [] { return std::string(); },
+            list(list, item, t_semi) >= [](std::string a, std::string b, skip) { return a + b + ";"; },
+            item(t_id, t_eq, t_str) >= [](std::string_view k, skip, std::string_view v) { return std::string(k) + "=<" + std::string(v) + ">"; },
+            item(t_id, t_eq, t_num) >= [](std::string_view k, skip, int v) { return std::string(k) + "=#" + std::to_string(v); }
+        ),
+        use_lexer<lexer>{});
+    return *p;
+}
+// independent evaluator of the same little language
+inline bool eval(const std::string& t, std::string& out)
+{
+    size_t p = 0;
+    auto ws = [&] { while (p < t.size() && (t[p] == ' ' || t[p] == '\t' || t[p] == '\n' || t[p] == '\r' || t[p] == '\v' || t[p] == '\f')) ++p; };
+    auto is_id = [](char x) { return (x >= 'a' && x <= 'z') || x == '_'; };
+    while (true)
+    {
+        ws(); if (p >= t.size()) return true;
+        if (!is_id(t[p])) return false;
+        size_t q = p; while (q < t.size() && is_id(t[q])) ++q; std::string k = t.substr(p, q - p); p = q;
+        ws(); if (p >= t.size() || t[p] != '=') return false; ++p; ws();
+        if (p >= t.size()) return false;
+        if (t[p] == '"') { size_t e = t.find('"', p + 1); if (e == std::string::npos) return false; out += k + "=<" + t.substr(p + 1, e - p - 1) + ">"; p = e + 1; }
+        else if (t[p] >= '0' && t[p] <= '9') { long v = 0; while (p < t.size() && t[p] >= '0' && t[p] <= '9') { v = (v * 10 + (t[p] - '0')) % 1000003; ++p; } out += k + "=#" + std::to_string(v); }
+        else return false;
+        ws(); if (p >= t.size() || t[p] != ';') return false; ++p; out += ";";
+    }
+}
+}
+
+struct P_C18t
+{
+    struct Case { std::vector<std::string> inputs; };
+    static const char* id() { return "C18t"; }
+    static Case gen(Choice& ch)
+    {
+        Case c; eng::Rng rng = ch.fork(); int n = 3 + int(ch.below(8));
+        static const char* ids[] = {"a", "name", "x_y", "path", "k"}; static const char* strs[] = {"\"Ann Lee\"", "\"\"", "\"a=b;c\"", "\"  two  spaces \"", "\"9\"", "\"multi\nline\""}; static const char* wsx[] = {"", " ", "  ", "\n", "\t", " \n "};
+        for (int i = 0; i < n; ++i)
+        {
+            std::string s; int items = int(rng.below(5));
+            for (int k = 0; k < items; ++k)
+            {
+                s += wsx[rng.below(6)]; s += ids[rng.below(5)]; s += wsx[rng.below(6)]; s += "="; s += wsx[rng.below(6)];
+                if (rng.chance(1, 2)) s += strs[rng.below(6)]; else s += std::to_string(rng.below(100000));
+                s += wsx[rng.below(6)]; s += ";";
+            }
+            s += wsx[rng.below(6)];
+            if (rng.chance(1, 5) && !s.empty()) { size_t pos = rng.below(uint32_t(s.size())); switch (rng.below(4)) { case 0: s.erase(pos, 1); break; case 1: s.insert(pos, 1, "=;\"9a?"[rng.below(7)]); break; case 2: s[pos] = "=;\"9a?"[rng.below(7)]; break; default: s.resize(pos); break; } }
+            c.inputs.push_back(s);
+        }
+        return c;
+    }
+    static vj::Value to_json(const Case& c) { vj::Value o = vj::Value::object(); o.set("kind", "settings-parser(custom lexer)"); vj::Value a = vj::Value::array(); for (auto& s : c.inputs) { vj::Value x = vj::Value::object(); x.set("hex", vj::hex(s)); x.set("text", s); a.push(x); } o.set("inputs", a); return o; }
+    static Case from_json(const vj::Value& v) { Case c; for (size_t i = 0; i < v.at("inputs").size(); ++i) c.inputs.push_back(vj::unhex(v.at("inputs").at(i).at("hex").as_str())); return c; }
+    static std::vector<Case> shrinks(const Case& c, const vj::Value& d)
+    {
+        std::vector<Case> out;
+        if (d.has("input_index") && c.inputs.size() > 1) { size_t k = size_t(d.at("input_index").as_int()); if (k < c.inputs.size()) { Case x; x.inputs = {c.inputs[k]}; out.push_back(x); } }
+        if (c.inputs.size() == 1) for (size_t p = 0; p < c.inputs[0].size(); ++p) { Case x = c; x.inputs[0].erase(p, 1); out.push_back(x); }
+        return out;
+    }
+    static Verdict eval(const Case& c, Stats& st)
+    {
+        size_t interesting = 0;
+        for (size_t k = 0; k < c.inputs.size(); ++k)
+        {
+            std::string want; bool ok = st::eval(c.inputs[k], want);
+            std::optional<std::string> got; ctpg::utils::no_stream ns; bool threw = false; std::string exc;
+            try { got = st::settings_parser().parse(ctpg::parse_options{}, ctpg::buffers::string_buffer(std::string(c.inputs[k])), ns); } catch (const std::exception& e) { threw = true; exc = e.what(); }
+            st.sub_evaluations += st.counting ? 1 : 0;
+            vj::Value d = vj::Value::object(); d.set("input_index", (unsigned long long)k); d.set("input", c.inputs[k]);
+            if (threw) { d.set("exception", exc); return Verdict::fail("parse threw", d); }
+            if (got.has_value() != ok) { d.set("expected_accept", ok); return Verdict::fail("acceptance differs from the language of the custom-lexer grammar", d); }
+            if (ok && got.value() != want) { d.set("expected", want); d.set("observed", got.value()); return Verdict::fail("a custom term's value is not its functor applied to the slice the lexer returned", d); }
+            if (ok && want.find('<') != std::string::npos) ++interesting;
+        }
+        if (interesting && st.counting && st.nontriv(eng::hstr(to_json(c).dump()))) { st.label("nontrivial"); st.label("fixed-parser:settings(custom lexer, string_view/int/no_type term values)"); if (st.want_sample()) st.sample(to_json(c)); }
+        return Verdict::pass();
+    }
+};
+
 int main(int argc, char** argv)
 {
     eng::Args a = eng::parse_args(argc, argv);
@@ -247,6 +361,7 @@ int main(int argc, char** argv)
     eng::on_big_stack([&]
     {
         if (a.prop == "C18") rc = eng::run_property<P_C18>(a);
+        else if (a.prop == "C18t") rc = eng::run_property<P_C18t>(a);
         else { fprintf(stderr, "unknown --prop %s\n", a.prop.c_str()); rc = 2; }
     });
     return rc;
